@@ -6,6 +6,7 @@ import (
 	"strconv"
 
 	"github.com/Ptt-official-app/go-pttbbs/cmsys"
+	"github.com/Ptt-official-app/go-pttbbs/ptt"
 	"verifharness/internal/hx"
 )
 
@@ -104,6 +105,121 @@ func init() {
 			}
 			return "", ""
 		}
+	}
+}
+
+// ---- ptt.StripANSIMoveCmd -----------------------------------------------------------------------
+
+// the character classes of pttbbs strip_ansi_movecmd (written out here: the specification side)
+const refMoveCodes = "0123456789;,["
+const refMoveCmds = "ABCDfjHJRu"
+
+// hasMoveSeq: does s contain ESC, any run of code bytes, a movement final — at ANY position (a lexer over all
+// start positions, not a left-to-right tokenisation: an ESC inside an unfinished sequence starts a new one)?
+func hasMoveSeq(s []byte) (int, bool) {
+	for i := 0; i < len(s); i++ {
+		if s[i] != 0x1b {
+			continue
+		}
+		j := i + 1
+		for j < len(s) && bytes.IndexByte([]byte(refMoveCodes), s[j]) >= 0 {
+			j++
+		}
+		if j < len(s) && bytes.IndexByte([]byte(refMoveCmds), s[j]) >= 0 {
+			return i, true
+		}
+	}
+	return -1, false
+}
+
+// refMoveCmd: the reference defusing, written from the C routine: repeatedly, find the next ESC from the current
+// position, skip code bytes, turn a movement final into 's', and go on searching AT that byte.
+func refMoveCmd(in []byte) []byte {
+	s := cp(in)
+	p := 0
+	for {
+		k := bytes.IndexByte(s[p:], 0x1b)
+		if k < 0 {
+			return s
+		}
+		p += k + 1
+		for p < len(s) && bytes.IndexByte([]byte(refMoveCodes), s[p]) >= 0 {
+			p++
+		}
+		if p >= len(s) {
+			return s
+		}
+		if bytes.IndexByte([]byte(refMoveCmds), s[p]) >= 0 {
+			s[p] = 's'
+		}
+	}
+}
+
+func init() {
+	opsTable["movecmd"] = func(ws []string) (string, string, func(string) (string, string)) {
+		a, ok := args(ws, 1)
+		if !ok {
+			return bad()
+		}
+		in := a[0]
+		var got []byte
+		out := hx.Call(func() string { // with the watchdog: the loop condition of the Go port never changes
+			got = ptt.StripANSIMoveCmd(cp(in))
+			return hx.Hex(got)
+		})
+		_, had := hasMoveSeq(in)
+		cls := "none"
+		if had {
+			cls = "move"
+		}
+		if bytes.Contains(in, []byte{0x1b, 0x1b}) {
+			cls += ":escesc"
+		}
+		return out, "movecmd:" + cls, func(out string) (string, string) {
+			if len(got) != len(in) {
+				return "len:movecmd", fmt.Sprintf("StripANSIMoveCmd(%q) has length %d, the input %d", in, len(got), len(in))
+			}
+			if at, still := hasMoveSeq(got); still {
+				return "move:movecmd", fmt.Sprintf("StripANSIMoveCmd(%q)=%q still holds a cursor-movement sequence at byte %d", in, got, at)
+			}
+			for i := range got {
+				if got[i] != in[i] && !(got[i] == 's' && bytes.IndexByte([]byte(refMoveCmds), in[i]) >= 0) {
+					return "change:movecmd", fmt.Sprintf("StripANSIMoveCmd(%q)=%q changes byte %d, which is no movement final", in, got, i)
+				}
+			}
+			if want := refMoveCmd(in); !bytes.Equal(got, want) {
+				return "ref:movecmd", fmt.Sprintf("StripANSIMoveCmd(%q)=%q, the reference routine gives %q", in, got, want)
+			}
+			return "", ""
+		}
+	}
+}
+
+func genMoveCmd() {
+	r := run.R
+	// every line up to length 6 over {ESC [ ; digit H J x}: ESC directly after ESC, after a cut-off sequence, ...
+	mvLen := 6
+	enum([]byte{0x1b, '[', ';', '2', 'H', 'J', 'x'}, mvLen, func(b []byte) { do("movecmd "+hx.Hex(b), true) })
+	// every byte value as final byte / as byte after ESC
+	for x := 0; x < 256; x++ {
+		b := byte(x)
+		for _, t := range [][]byte{{0x1b, '[', b}, {0x1b, b}, {0x1b, '[', '1', ';', b, 0x1b, '[', 'H'}, {0x1b, b, 0x1b, '[', '2', 'J'}, {b}} {
+			do("movecmd "+hx.Hex(t), true)
+		}
+	}
+	n := 2000
+	if run.Thorough() {
+		n = 60000
+	}
+	for i := 0; i < n; i++ {
+		s := ansiText(r, 10)
+		if r.Intn(3) == 0 { // glue an ESC right behind an ESC / behind parameter bytes
+			for k := 0; k < 1+r.Intn(3) && len(s) > 0; k++ {
+				p := r.Intn(len(s))
+				s = append(s[:p], append([]byte{0x1b}, s[p:]...)...)
+			}
+		}
+		do("movecmd "+hx.Hex(s), true)
 	}
 }
 
